@@ -81,8 +81,24 @@ def encVal : Val → String
   | .str t => "str " ++ encText t
   | .fmt f => "fmt " ++ encFmt f
 
+def encTextE (t : Text) : String := if t.isEmpty then "e" else encText t
+
 def attsOps (args : List String) : Option String :=
   match args with
+  -- the hand-written str specifications themselves (tied against CPython's str every run)
+  | ["specsplit", sep, t] => do
+    pure ("ok " ++ encList encTextE (Spec.strSplit (← decText sep) (← decText t)))
+  | ["specsplitlines", keep, breaks, t] => do
+    let br ← decText breaks
+    pure ("ok " ++ encList encTextE (Spec.strSplitlines (fun c => br.contains c) (keep == "1") (← decText t)))
+  | ["specljust", t, w, fill] => do
+    match ← decText fill with
+    | [c] => pure ("ok " ++ encTextE (Spec.pyLjust (← decText t) (← w.toInt?) c))
+    | _ => none
+  | ["specrjust", t, w, fill] => do
+    match ← decText fill with
+    | [c] => pure ("ok " ++ encTextE (Spec.pyRjust (← decText t) (← w.toInt?) c))
+    | _ => none
   | ["parseargs", pos, kw] => do
     let (pos, t1) ← decPos pos
     let (kw, t2) ← decKw kw
